@@ -1896,14 +1896,6 @@ func (c *streamableServerConn) Write(ctx context.Context, msg jsonrpc.Message) e
 			s = c.streams[""] // standalone SSE stream
 		}
 	}
-	if s == nil && relatedRequest.IsValid() && !responseTo.IsValid() {
-		// A notification or request of the server relating to a request whose
-		// stream is gone (the client abandoned the exchange, and nothing is
-		// stored from which it could be resumed) - for example the cancellation
-		// of a nested request after the client gave up on the outer one. The
-		// standalone stream is the only way left to reach the client.
-		s = c.streams[""]
-	}
 	if responseTo.IsValid() {
 		// Once we've responded to a request, disallow related messages by removing
 		// the stream association. This also releases memory.
@@ -1926,8 +1918,12 @@ func (c *streamableServerConn) Write(ctx context.Context, msg jsonrpc.Message) e
 
 	s.mu.Lock()
 	if !responseTo.IsValid() && s.id != "" && s.done == nil && c.eventStore == nil {
-		// Likewise if the stream still exists but its exchange has ended and
-		// cannot be resumed.
+		// A notification or request of the server relating to a request that is
+		// still being handled, but whose HTTP exchange has ended and - nothing
+		// being stored - cannot be resumed: for example the cancellation of a
+		// nested request after the client gave up on the outer one. The
+		// standalone stream is the only way left to reach the client. (Messages
+		// relating to a request that has been answered are still refused above.)
 		s.mu.Unlock()
 		c.mu.Lock()
 		s = c.streams[""]
